@@ -41,6 +41,22 @@ func runC02(c *engine.Ctx) {
 	entry := p.Draw(2, "cfg:entry") // 0 per-step job, 1 whole pipeline
 	o := w.opts(4)
 	doc := o.Pipeline()
+	// some documents arrive already carrying signature blocks (an earlier upload, another key, edited since):
+	// signing must replace them
+	if p.Draw(4, "cfg:presigned") == 3 {
+		forEachCommandNode(docSteps(doc), func(n *gen.Node) {
+			if p.Draw(2, "presigned:here") == 1 {
+				alg := kp.priv.Algorithm().String()
+				if p.Draw(3, "presigned:otheralg") == 2 {
+					alg = "ES512"
+				}
+				n.Set("signature", gen.Map().Set("algorithm", gen.Str(alg)).
+					Set("signed_fields", gen.Seq(gen.Str("command"), gen.Str("env"), gen.Str("matrix"), gen.Str("plugins"), gen.Str("repository_url"))).
+					Set("value", gen.Str("eyJhbGciOiJFZERTQSIsImtpZCI6ImtleS1BIn0..c3RhbGUtc2lnbmF0dXJlLWZyb20tYW4tZWFybGllci11cGxvYWQ")))
+				w.features["presigned_step"] = true
+			}
+		})
+	}
 	fieldClash := false
 	if interp && doc.Kind == gen.KMap {
 		// (a) an env-block name built by expansion that lands on a later literal name: the block then
